@@ -1,11 +1,11 @@
 SPECIFICATION Spec
 CONSTANTS
-  Transport = "quic"
+  Transport = "tls"
   ResidueAfterFailure = FALSE
   ShortCookieRead = FALSE
   DialResetsData = TRUE
-  Alpns <- AlpnsQuic
-  Alphabet <- AlphaCore
+  Alpns <- AlpnsTls
+  Alphabet <- AlphaAll
   CutRecs <- CutCore
   MaxRecs = 4
   MaxDials = 3
@@ -13,5 +13,5 @@ CONSTANTS
   MaxStore = 1
   CtxMode = "returns"
   MaxStalls = 1
-INVARIANTS TypeOK SuccessOnlyIf KeysAgree PoolIsIssued PoolReturned Destination NoResidue
+INVARIANTS TypeOK SuccessOnlyIf KeysAgree PoolIsIssued PoolReturned Destination NoResidue NoResidueState
 PROPERTIES IgnoresNonCritical
